@@ -3,96 +3,98 @@ import PlasVerif.Spec.Balanced
 namespace PlasVerif.Proofs.Context
 open PlasVerif.Model.Context PlasVerif.Model.Catcodes PlasVerif.Spec.Balanced
 
+/-! ## `mapFrames` -/
+
+theorem mapFrames_cons_ne (L G : Frame → Frame) (f : Frame) (t : Ctx) (h : t ≠ []) :
+    mapFrames L G (f :: t) = L f :: mapFrames L G t := by
+  cases t with
+  | nil => exact absurd rfl h
+  | cons a b => rfl
+
+theorem mapFrames_length (L G : Frame → Frame) (c : Ctx) : (mapFrames L G c).length = c.length := by
+  induction c with
+  | nil => rfl
+  | cons f t ih =>
+    cases t with
+    | nil => rfl
+    | cons a b => rw [mapFrames_cons_ne L G f (a :: b) (by simp)]; simp [ih]
+
+theorem mapFrames_ne_nil (L G : Frame → Frame) (c : Ctx) (h : c ≠ []) : mapFrames L G c ≠ [] := by
+  intro h'
+  have := mapFrames_length L G c
+  rw [h'] at this
+  cases c with
+  | nil => exact h rfl
+  | cons _ _ => simp at this
+
+theorem mapFrames_comp (L1 G1 L2 G2 : Frame → Frame) (c : Ctx) :
+    mapFrames L2 G2 (mapFrames L1 G1 c) = mapFrames (L2 ∘ L1) (G2 ∘ G1) c := by
+  induction c with
+  | nil => rfl
+  | cons f t ih =>
+    cases t with
+    | nil => rfl
+    | cons a b =>
+      rw [mapFrames_cons_ne L1 G1 f (a :: b) (by simp), mapFrames_cons_ne (L2 ∘ L1) (G2 ∘ G1) f (a :: b) (by simp),
+        mapFrames_cons_ne L2 G2 _ _ (mapFrames_ne_nil L1 G1 (a :: b) (by simp)), ih]
+      rfl
+
+theorem mapFrames_congr {L G L' G' : Frame → Frame} (h1 : ∀ f, L f = L' f) (h2 : ∀ f, G f = G' f) (c : Ctx) :
+    mapFrames L G c = mapFrames L' G' c := by
+  have e1 : L = L' := funext h1
+  have e2 : G = G' := funext h2
+  rw [e1, e2]
+
+theorem mapFrames_id (c : Ctx) : mapFrames id id c = c := by
+  induction c with
+  | nil => rfl
+  | cons f t ih =>
+    cases t with
+    | nil => rfl
+    | cons a b => rw [mapFrames_cons_ne id id f (a :: b) (by simp), ih]; rfl
+
+/-! ## the model's stack operations as `mapFrames` -/
+
+theorem modifyGlobal_eq (g : Frame → Frame) (c : Ctx) : modifyGlobal g c = mapFrames id g c := by
+  induction c with
+  | nil => rfl
+  | cons f t ih =>
+    cases t with
+    | nil => rfl
+    | cons a b => simp only [modifyGlobal] at ih ⊢; rw [mapFrames_cons_ne id g f (a :: b) (by simp), ih]; rfl
+
 theorem modifyGlobal_cons_ne (g : Frame → Frame) (f : Frame) (t : Ctx) (h : t ≠ []) :
     modifyGlobal g (f :: t) = f :: modifyGlobal g t := by
   cases t with
   | nil => exact absurd rfl h
   | cons a b => simp [modifyGlobal]
 
-theorem modifyGlobal_length (g : Frame → Frame) (c : Ctx) : (modifyGlobal g c).length = c.length := by
-  induction c with
-  | nil => rfl
-  | cons f t ih =>
-    cases t with
-    | nil => simp [modifyGlobal]
-    | cons a b => simp [modifyGlobal] at ih ⊢; exact ih
-
-theorem extG_nil (c : Ctx) : extG [] c = c := by
-  unfold extG
-  induction c with
-  | nil => rfl
-  | cons f t ih =>
-    cases t with
-    | nil => simp [modifyGlobal]
-    | cons a b => simp [modifyGlobal] at ih ⊢; exact ih
-
-theorem extG_length (g : List (Nat × Val)) (c : Ctx) : (extG g c).length = c.length :=
-  modifyGlobal_length _ c
-
-theorem extG_ne_nil (g : List (Nat × Val)) (c : Ctx) (h : c ≠ []) : extG g c ≠ [] := by
-  intro h'
-  have := extG_length g c
-  rw [h'] at this
-  cases c with
-  | nil => exact h rfl
-  | cons _ _ => simp at this
-
 theorem modifyGlobal_ne_nil (g : Frame → Frame) (c : Ctx) (h : c ≠ []) : modifyGlobal g c ≠ [] := by
-  intro h'
-  have := modifyGlobal_length g c
-  rw [h'] at this
-  cases c with
-  | nil => exact h rfl
-  | cons _ _ => simp at this
+  rw [modifyGlobal_eq]; exact mapFrames_ne_nil _ _ c h
 
-theorem modifyGlobal_comp (g1 g2 : Frame → Frame) (c : Ctx) :
-    modifyGlobal g2 (modifyGlobal g1 c) = modifyGlobal (g2 ∘ g1) c := by
-  induction c with
-  | nil => rfl
-  | cons f t ih =>
-    cases t with
-    | nil => simp [modifyGlobal]
-    | cons a b =>
-      rw [modifyGlobal_cons_ne g1 f (a :: b) (by simp), modifyGlobal_cons_ne (g2 ∘ g1) f (a :: b) (by simp),
-        modifyGlobal_cons_ne g2 f _ (modifyGlobal_ne_nil g1 (a :: b) (by simp)), ih]
-
-theorem extG_extG (g1 g2 : List (Nat × Val)) (c : Ctx) : extG g2 (extG g1 c) = extG (g2 ++ g1) c := by
-  unfold extG
-  rw [modifyGlobal_comp]
-  congr 1
-  funext f
-  simp [Function.comp]
-
-theorem extG_cons_ne (g : List (Nat × Val)) (f : Frame) (t : Ctx) (h : t ≠ []) :
-    extG g (f :: t) = f :: extG g t := modifyGlobal_cons_ne _ f t h
-
-/-- adding globals below a frame: the frame keeps its object, lets and categories -/
-theorem extG_cons (g : List (Nat × Val)) (f : Frame) (t : Ctx) :
-    ∃ f1 g1, extG g (f :: t) = f1 :: extG g1 t ∧ f1.obj = f.obj ∧ f1.cats = f.cats ∧ f1.lets = f.lets ∧
-      (∀ x ∈ g1, x ∈ g) := by
-  cases t with
-  | nil => exact ⟨{ f with macros := g ++ f.macros }, [], by simp [extG, modifyGlobal], rfl, rfl, rfl, by simp⟩
-  | cons a b => exact ⟨f, g, by simp [extG, modifyGlobal], rfl, rfl, rfl, fun _ h => h⟩
-
-theorem addGlobal_eq_extG (n : Nat) (v : Val) (c : Ctx) : addGlobal n v c = extG [(n, v)] c := rfl
-
-/-! ## `dropLocalsL` and `shape` -/
-
-theorem dropLocalsL_length (ns : List Nat) (c : Ctx) : (dropLocalsL ns c).length = c.length := by
+theorem dropLocalsL_eq (ns : List Nat) (c : Ctx) :
+    dropLocalsL ns c = mapFrames (fun f => { f with macros := f.macros.filter (fun p => !ns.contains p.1) }) id c := by
   induction c with
   | nil => rfl
   | cons f t ih =>
     cases t with
     | nil => rfl
-    | cons a b => simp only [dropLocalsL, List.length_cons] at ih ⊢; omega
+    | cons a b => simp only [dropLocalsL] at ih ⊢; rw [mapFrames_cons_ne _ id f (a :: b) (by simp), ih]
+
+theorem dropLetsL_eq (ls : List Nat) (c : Ctx) :
+    dropLetsL ls c = mapFrames (fun f => { f with lets := f.lets.filter (fun p => !ls.contains p.1) }) id c := by
+  induction c with
+  | nil => rfl
+  | cons f t ih =>
+    cases t with
+    | nil => rfl
+    | cons a b => simp only [dropLetsL] at ih ⊢; rw [mapFrames_cons_ne _ id f (a :: b) (by simp), ih]
 
 theorem dropLocalsL_ne_nil (ns : List Nat) (c : Ctx) (h : c ≠ []) : dropLocalsL ns c ≠ [] := by
-  intro h'
-  have := dropLocalsL_length ns c
-  rw [h'] at this
-  cases c with
-  | nil => exact h rfl
-  | cons _ _ => simp at this
+  rw [dropLocalsL_eq]; exact mapFrames_ne_nil _ _ c h
+
+theorem dropLetsL_ne_nil (ls : List Nat) (c : Ctx) (h : c ≠ []) : dropLetsL ls c ≠ [] := by
+  rw [dropLetsL_eq]; exact mapFrames_ne_nil _ _ c h
 
 theorem dropLocalsL_cons_ne (ns : List Nat) (f : Frame) (t : Ctx) (h : t ≠ []) :
     dropLocalsL ns (f :: t) =
@@ -101,95 +103,135 @@ theorem dropLocalsL_cons_ne (ns : List Nat) (f : Frame) (t : Ctx) (h : t ≠ [])
   | nil => exact absurd rfl h
   | cons a b => rfl
 
-theorem dropLocalsL_nil (c : Ctx) : dropLocalsL [] c = c := by
-  induction c with
-  | nil => rfl
-  | cons f t ih =>
-    cases t with
-    | nil => rfl
-    | cons a b => rw [dropLocalsL_cons_ne [] f (a :: b) (by simp), ih]; cases f; simp
-
-theorem dropLocalsL_comp (a b : List Nat) (c : Ctx) :
-    dropLocalsL a (dropLocalsL b c) = dropLocalsL (a ++ b) c := by
-  induction c with
-  | nil => rfl
-  | cons f t ih =>
-    cases t with
-    | nil => rfl
-    | cons x y =>
-      rw [dropLocalsL_cons_ne b f (x :: y) (by simp), dropLocalsL_cons_ne (a ++ b) f (x :: y) (by simp),
-        dropLocalsL_cons_ne a _ _ (dropLocalsL_ne_nil b (x :: y) (by simp)), ih]
-      congr 1
-      simp only [List.filter_filter]
-      congr 2
-      funext p
-      simp [List.contains_append, Bool.and_comm]
-
-theorem dropLocalsL_extG (ns : List Nat) (g : List (Nat × Val)) (c : Ctx) :
-    dropLocalsL ns (extG g c) = extG g (dropLocalsL ns c) := by
-  induction c with
-  | nil => rfl
-  | cons f t ih =>
-    cases t with
-    | nil => rfl
-    | cons x y =>
-      rw [extG_cons_ne g f (x :: y) (by simp), dropLocalsL_cons_ne ns f (x :: y) (by simp),
-        dropLocalsL_cons_ne ns f _ (extG_ne_nil g (x :: y) (by simp)),
-        extG_cons_ne g _ _ (dropLocalsL_ne_nil ns (x :: y) (by simp)), ih]
-
-theorem shape_nil (c : Ctx) : shape [] [] c = c := by
-  rw [shape, dropLocalsL_nil, extG_nil]
-
-theorem shape_names_nil (g : List (Nat × Val)) (c : Ctx) : shape g [] c = extG g c := by
-  rw [shape, dropLocalsL_nil]
-
-theorem shape_length (g : List (Nat × Val)) (ns : List Nat) (c : Ctx) : (shape g ns c).length = c.length := by
-  rw [shape, extG_length, dropLocalsL_length]
-
-theorem shape_ne_nil (g : List (Nat × Val)) (ns : List Nat) (c : Ctx) (h : c ≠ []) : shape g ns c ≠ [] :=
-  extG_ne_nil g _ (dropLocalsL_ne_nil ns c h)
-
-theorem shape_shape (g1 g2 : List (Nat × Val)) (n1 n2 : List Nat) (c : Ctx) :
-    shape g2 n2 (shape g1 n1 c) = shape (g2 ++ g1) (n2 ++ n1) c := by
-  simp only [shape]
-  rw [dropLocalsL_extG, extG_extG, dropLocalsL_comp]
-
-/-- changing what is below a frame: the frame keeps its object, lets and categories -/
-theorem shape_cons (g : List (Nat × Val)) (ns : List Nat) (f : Frame) (t : Ctx) :
-    ∃ f1 g1 n1, shape g ns (f :: t) = f1 :: shape g1 n1 t ∧ f1.obj = f.obj ∧ f1.cats = f.cats ∧ f1.lets = f.lets ∧
-      (∀ x ∈ g1, x ∈ g) ∧ (∀ x ∈ n1, x ∈ ns) := by
+theorem dropLetsL_cons_ne (ls : List Nat) (f : Frame) (t : Ctx) (h : t ≠ []) :
+    dropLetsL ls (f :: t) =
+      { f with lets := f.lets.filter (fun p => !ls.contains p.1) } :: dropLetsL ls t := by
   cases t with
-  | nil =>
-    exact ⟨{ f with macros := g ++ f.macros }, [], [], by simp [shape, extG, modifyGlobal, dropLocalsL], rfl, rfl, rfl,
-      by simp, by simp⟩
-  | cons a b =>
-    refine ⟨{ f with macros := f.macros.filter (fun p => !ns.contains p.1) }, g, ns, ?_, rfl, rfl, rfl,
-      fun _ h => h, fun _ h => h⟩
-    rw [shape, dropLocalsL_cons_ne ns f (a :: b) (by simp),
-      extG_cons_ne g _ _ (dropLocalsL_ne_nil ns (a :: b) (by simp))]
-    rfl
+  | nil => exact absurd rfl h
+  | cons a b => rfl
+
+/-! ## `shape` -/
+
+theorem filter_const_true {β} (l : List β) : l.filter (fun _ => true) = l := by
+  induction l with
+  | nil => rfl
+  | cons x l ih => simp [List.filter_cons]
+
+theorem filter_notin_nil {β} (l : List (Nat × β)) : l.filter (fun p => !([] : List Nat).contains p.1) = l := by
+  simp [filter_const_true]
+
+theorem shape_nil (c : Ctx) : shape {} c = c := by
+  have h1 : ∀ f, ({} : Delta).localF f = id f := by
+    intro f; cases f; simp [Delta.localF, filter_const_true]
+  have h2 : ∀ f, ({} : Delta).globalF f = id f := by
+    intro f; cases f; simp [Delta.globalF]
+  rw [shape, mapFrames_congr h1 h2, mapFrames_id]
+
+theorem shape_length (d : Delta) (c : Ctx) : (shape d c).length = c.length := mapFrames_length _ _ c
+
+theorem shape_ne_nil (d : Delta) (c : Ctx) (h : c ≠ []) : shape d c ≠ [] := mapFrames_ne_nil _ _ c h
+
+theorem filter_filter_contains {β} (a b : List Nat) (l : List (Nat × β)) :
+    (l.filter (fun p => !b.contains p.1)).filter (fun p => !a.contains p.1) = l.filter (fun p => !(a ++ b).contains p.1) := by
+  simp only [List.filter_filter]
+  congr 1
+  funext p
+  simp [List.contains_append, Bool.and_comm]
+
+theorem shape_shape (d1 d2 : Delta) (c : Ctx) : shape d2 (shape d1 c) = shape (d2.app d1) c := by
+  simp only [shape]
+  rw [mapFrames_comp]
+  apply mapFrames_congr
+  · intro f
+    simp only [Function.comp, Delta.localF, Delta.app, filter_filter_contains]
+  · intro f
+    simp only [Function.comp, Delta.globalF, Delta.app, List.append_assoc]
+
+theorem addGlobal_eq_shape (n : Nat) (v : Val) (c : Ctx) : addGlobal n v c = shape { g := [(n, v)] } c := by
+  rw [addGlobal, modifyGlobal_eq, shape]
+  apply mapFrames_congr
+  · intro f; cases f; simp [Delta.localF, filter_const_true]
+  · intro f; simp [Delta.globalF]
+
+theorem addGlobalLet_eq_shape (d t : Nat) (c : Ctx) :
+    modifyGlobal (fun f => { f with lets := (d, t) :: f.lets }) c = shape { gl := [(d, t)] } c := by
+  rw [modifyGlobal_eq, shape]
+  apply mapFrames_congr
+  · intro f; cases f; simp [Delta.localF, filter_const_true]
+  · intro f; simp [Delta.globalF]
+
+theorem dropLocalsL_eq_shape (ns : List Nat) (c : Ctx) : dropLocalsL ns c = shape { ns := ns } c := by
+  rw [dropLocalsL_eq, shape]
+  apply mapFrames_congr
+  · intro f; simp [Delta.localF, filter_const_true]
+  · intro f; cases f; simp [Delta.globalF]
+
+theorem dropLetsL_eq_shape (ls : List Nat) (c : Ctx) : dropLetsL ls c = shape { ls := ls } c := by
+  rw [dropLetsL_eq, shape]
+  apply mapFrames_congr
+  · intro f; simp [Delta.localF, filter_const_true]
+  · intro f; cases f; simp [Delta.globalF]
+
+theorem Delta.sub_refl (d : Delta) : d.sub d := ⟨fun _ h => h, fun _ h => h, fun _ h => h, fun _ h => h⟩
+
+theorem Delta.nil_sub (d : Delta) : ({} : Delta).sub d := ⟨by simp, by simp, by simp, by simp⟩
+
+/-- changing what is below a frame: the frame keeps its object and categories -/
+theorem shape_cons (d : Delta) (f : Frame) (t : Ctx) :
+    ∃ f1 d1, shape d (f :: t) = f1 :: shape d1 t ∧ f1.obj = f.obj ∧ f1.cats = f.cats ∧ Delta.sub d1 d := by
+  cases t with
+  | nil => exact ⟨d.globalF f, {}, rfl, rfl, rfl, Delta.nil_sub d⟩
+  | cons a b => exact ⟨d.localF f, d, rfl, rfl, rfl, Delta.sub_refl d⟩
+
+/-! ## `justified` -/
+
+theorem justified_nil (ops : List Op) : ({} : Delta).justified ops := ⟨by simp, by simp, by simp, by simp⟩
+
+theorem justified_mono {d : Delta} {ops ops' : List Op} (h : d.justified ops) (hs : ∀ op ∈ ops, op ∈ ops') :
+    d.justified ops' := by
+  obtain ⟨h1, h2, h3, h4⟩ := h
+  refine ⟨?_, ?_, ?_, ?_⟩
+  · intro x hx; obtain ⟨op, ho, hp⟩ := h1 x hx; exact ⟨op, hs op ho, hp⟩
+  · intro x hx; obtain ⟨op, ho, hp⟩ := h2 x hx; exact ⟨op, hs op ho, hp⟩
+  · intro x hx; obtain ⟨op, ho, hp⟩ := h3 x hx; exact ⟨op, hs op ho, hp⟩
+  · intro x hx; obtain ⟨op, ho, hp⟩ := h4 x hx; exact ⟨op, hs op ho, hp⟩
+
+theorem justified_sub {d1 d : Delta} {ops : List Op} (hs : Delta.sub d1 d) (h : d.justified ops) : d1.justified ops :=
+  ⟨fun x hx => h.1 x (hs.1 x hx), fun x hx => h.2.1 x (hs.2.1 x hx), fun x hx => h.2.2.1 x (hs.2.2.1 x hx),
+    fun x hx => h.2.2.2 x (hs.2.2.2 x hx)⟩
+
+theorem justified_app {d1 d2 : Delta} {ops : List Op} (h2 : d2.justified ops) (h1 : d1.justified ops) :
+    (d2.app d1).justified ops := by
+  refine ⟨?_, ?_, ?_, ?_⟩ <;> intro x hx <;> simp only [Delta.app] at hx <;> rcases List.mem_append.mp hx with h | h
+  · exact h2.1 x h
+  · exact h1.1 x h
+  · exact h2.2.1 x h
+  · exact h1.2.1 x h
+  · exact h2.2.2.1 x h
+  · exact h1.2.2.1 x h
+  · exact h2.2.2.2 x h
+  · exact h1.2.2.2 x h
 
 /-- a plain operation on `f :: t` changes only the top frame (keeping its object), adds globals below and
-    — for `\gdef` — drops the local bindings of the defined name below; a name is added to the global
-    frame only by an operation that is a global source for it -/
+    — for `\\gdef` and `\\global\\let` — drops the local bindings / aliases of the assigned name below; every component of
+    the change is accounted for by the operation -/
 theorem plain_step (o : Op) (ho : Op.plain o = true) (f : Frame) (t : Ctx) :
-    ∃ f' g ns, step (f :: t) o = f' :: shape g ns t ∧ f'.obj = f.obj ∧
-      (∀ x ∈ g, globalSource x.1 o = true) ∧ (∀ n ∈ ns, isGdef n o = true) := by
-  have hadd : ∀ n v, ∃ f' g, addGlobal n v (f :: t) = f' :: extG g t ∧ f'.obj = f.obj ∧ ∀ x ∈ g, x = (n, v) := by
-    intro n v
-    rw [addGlobal_eq_extG]
-    obtain ⟨f1, g1, h1, h2, _, _, h5⟩ := extG_cons [(n, v)] f t
-    exact ⟨f1, g1, h1, h2, fun x hx => by simpa using h5 x hx⟩
-  have top : ∀ (f' : Frame), f'.obj = f.obj → ∃ f'' g ns, f' :: t = f'' :: shape g ns t ∧ f''.obj = f.obj ∧
-      (∀ x ∈ g, globalSource x.1 o = true) ∧ (∀ n ∈ ns, isGdef n o = true) := by
+    ∃ f' d, step (f :: t) o = f' :: shape d t ∧ f'.obj = f.obj ∧ d.justified [o] := by
+  -- an operation whose effect on the whole stack is `shape d0` with `d0` justified
+  have viaShape : ∀ (d0 : Delta), d0.justified [o] → ∀ c', c' = shape d0 (f :: t) →
+      ∃ f' d, c' = f' :: shape d t ∧ f'.obj = f.obj ∧ d.justified [o] := by
+    intro d0 hj c' hc
+    obtain ⟨f1, d1, h1, h2, _, hs⟩ := shape_cons d0 f t
+    exact ⟨f1, d1, by rw [hc, h1], h2, justified_sub hs hj⟩
+  -- an operation that only rewrites the top frame
+  have top : ∀ (f' : Frame), f'.obj = f.obj → ∃ f'' d, f' :: t = f'' :: shape d t ∧ f''.obj = f.obj ∧ d.justified [o] := by
     intro f' h
-    exact ⟨f', [], [], by rw [shape_nil], h, by simp, by simp⟩
+    exact ⟨f', {}, by rw [shape_nil], h, justified_nil _⟩
   cases o with
   | push _ _ => simp [Op.plain] at ho
   | pop _ => simp [Op.plain] at ho
   | addGlobal n v =>
-    obtain ⟨f', g, h1, h2, h3⟩ := hadd n v
-    exact ⟨f', g, [], by rw [shape_names_nil]; exact h1, h2, fun x hx => by rw [h3 x hx]; simp [globalSource], by simp⟩
+    exact viaShape { g := [(n, v)] } ⟨by simp [globalSource], by simp, by simp, by simp⟩ _ (addGlobal_eq_shape n v _)
   | addLocal n v => exact top { f with macros := (n, v) :: f.macros } rfl
   | letTok d tk => exact top { f with lets := (d, tk) :: f.lets } rfl
   | setCat ch k => exact top { f with cats := setCat f.cats ch k } rfl
@@ -199,23 +241,36 @@ theorem plain_step (o : Op) (ho : Op.plain o = true) (f : Frame) (t : Ctx) :
     cases hf : find n (f :: t) with
     | some v => exact top f rfl
     | none =>
-      obtain ⟨f', g, h1, h2, h3⟩ := hadd n (.unrec n)
-      exact ⟨f', g, [], by rw [shape_names_nil]; exact h1, h2, fun x hx => by rw [h3 x hx]; simp [globalSource], by simp⟩
+      exact viaShape { g := [(n, .unrec n)] } ⟨by simp [globalSource], by simp, by simp, by simp⟩ _ (addGlobal_eq_shape n _ _)
   | letCs d s =>
     simp only [step, letCs, lookup]
     cases hf : find s (f :: t) with
     | some v => exact top { f with macros := (d, v) :: f.macros } rfl
     | none =>
-      obtain ⟨f', g, h1, h2, h3⟩ := hadd s (.unrec s)
+      obtain ⟨f', d', h1, h2, h3⟩ := viaShape { g := [(s, .unrec s)] } ⟨by simp [globalSource], by simp, by simp, by simp⟩ _
+        (addGlobal_eq_shape s (.unrec s) (f :: t))
       simp only [h1, addLocal, modifyTop]
-      exact ⟨{ f' with macros := (d, .unrec s) :: f'.macros }, g, [], by rw [shape_names_nil], h2,
-        fun x hx => by rw [h3 x hx]; simp [globalSource], by simp⟩
+      exact ⟨{ f' with macros := (d, .unrec s) :: f'.macros }, d', rfl, h2, h3⟩
   | gdef n v =>
-    obtain ⟨f1, g1, n1, h1, h2, _, _, h5, h6⟩ := shape_cons [(n, v)] [n] f t
-    refine ⟨f1, g1, n1, ?_, h2, ?_, ?_⟩
-    · simp only [step, defGlobal, addGlobal_eq_extG]; exact h1
-    · intro x hx; have := h5 x hx; simp at this; rw [this]; simp [globalSource]
-    · intro m hm; have := h6 m hm; simp at this; rw [this]; simp [isGdef]
+    refine viaShape { g := [(n, v)], ns := [n] } ⟨by simp [globalSource], by simp [isGdef], by simp, by simp⟩ _ ?_
+    simp only [step, defGlobal]
+    rw [addGlobal_eq_shape, dropLocalsL_eq_shape, shape_shape]; rfl
+  | gletCs d s =>
+    simp only [step, letGlobalCs, lookup]
+    cases hf : find s (f :: t) with
+    | some v =>
+      refine viaShape { g := [(d, v)], ns := [d], ls := [d] } ⟨by simp [globalSource], by simp [isGdef], by simp, by simp [isGlet]⟩ _ ?_
+      simp only
+      rw [addGlobal_eq_shape, dropLetsL_eq_shape, dropLocalsL_eq_shape, shape_shape, shape_shape]; rfl
+    | none =>
+      refine viaShape { g := [(d, .unrec s), (s, .unrec s)], ns := [d], ls := [d] }
+        ⟨by simp [globalSource], by simp [isGdef], by simp, by simp [isGlet]⟩ _ ?_
+      simp only
+      rw [addGlobal_eq_shape, dropLetsL_eq_shape, dropLocalsL_eq_shape, addGlobal_eq_shape, shape_shape, shape_shape, shape_shape]; rfl
+  | gletTok d tk =>
+    refine viaShape { gl := [(d, tk)], ns := [d], ls := [d] } ⟨by simp, by simp [isGdef], by simp [isGlet], by simp [isGlet]⟩ _ ?_
+    simp only [step, letGlobalTok]
+    rw [addGlobalLet_eq_shape, dropLetsL_eq_shape, dropLocalsL_eq_shape, shape_shape, shape_shape]; rfl
 
 theorem run_append (a b : List Op) (c : Ctx) : run (a ++ b) c = run b (run a c) := by
   simp [run, List.foldl_append]
@@ -256,95 +311,125 @@ theorem push_notDoc (o : Option ObjRef) (l : List (Nat × Val)) (c : Ctx) (h : n
   | none => rfl
   | some r => simp [notDoc] at h; simp [push, h]
 
-/-- **frame invariant**: a balanced history run on `f :: t` leaves `t` untouched except for definitions
-    added to the global frame and the local bindings of `\gdef`-ed names dropped at every level; it keeps the
-    depth and the top frame's object; every name added to the global frame has a global-source operation
-    in the history, every dropped name a `\gdef` -/
+/-- **frame invariant**: a balanced history run on `f :: t` leaves `t` untouched except for a change `d` (definitions and
+    aliases added to the global frame; local bindings / aliases of globally assigned names dropped at every level); it keeps
+    the depth and the top frame's object; every component of `d` is accounted for by an operation of the history -/
 theorem balanced_frame {ops : List Op} (hb : Balanced ops) :
-    ∀ (f : Frame) (t : Ctx), ∃ f' g ns, run ops (f :: t) = f' :: shape g ns t ∧ f'.obj = f.obj ∧
-      (∀ x ∈ g, ∃ op ∈ ops, globalSource x.1 op = true) ∧ (∀ n ∈ ns, ∃ op ∈ ops, isGdef n op = true) := by
+    ∀ (f : Frame) (t : Ctx), ∃ f' d, run ops (f :: t) = f' :: shape d t ∧ f'.obj = f.obj ∧ d.justified ops := by
   induction hb with
-  | nil => intro f t; exact ⟨f, [], [], by simp [run, shape_nil], rfl, by simp, by simp⟩
+  | nil => intro f t; exact ⟨f, {}, by simp [run, shape_nil], rfl, justified_nil _⟩
   | op o rest ho _ ih =>
     intro f t
-    obtain ⟨f1, g1, n1, h1, e1, s1, d1⟩ := plain_step o ho f t
-    obtain ⟨f2, g2, n2, h2, e2, s2, d2⟩ := ih f1 (shape g1 n1 t)
-    refine ⟨f2, g2 ++ g1, n2 ++ n1, ?_, e2.trans e1, ?_, ?_⟩
+    obtain ⟨f1, d1, h1, e1, j1⟩ := plain_step o ho f t
+    obtain ⟨f2, d2, h2, e2, j2⟩ := ih f1 (shape d1 t)
+    refine ⟨f2, d2.app d1, ?_, e2.trans e1, ?_⟩
     · rw [run_cons, h1, h2, shape_shape]
-    · intro x hx
-      rcases List.mem_append.mp hx with h | h
-      · obtain ⟨op, hop, hs⟩ := s2 x h
-        exact ⟨op, List.mem_cons_of_mem _ hop, hs⟩
-      · exact ⟨o, List.mem_cons_self, s1 x h⟩
-    · intro x hx
-      rcases List.mem_append.mp hx with h | h
-      · obtain ⟨op, hop, hs⟩ := d2 x h
-        exact ⟨op, List.mem_cons_of_mem _ hop, hs⟩
-      · exact ⟨o, List.mem_cons_self, d1 x h⟩
+    · exact justified_app (justified_mono j2 (fun op h => List.mem_cons_of_mem _ h))
+        (justified_mono j1 (fun op h => by simp at h; simp [h]))
   | group o o' locals body rest hnd hcl _ _ ihb ihr =>
     intro f t
-    obtain ⟨fb, gb, nb, hb1, eb, sb, db⟩ := ihb { macros := locals, lets := [], cats := cats (f :: t), obj := o } (f :: t)
-    obtain ⟨f1, g1, n1, h1, e1, _, _, sub1, subn⟩ := shape_cons gb nb f t
-    obtain ⟨f2, g2, n2, h2, e2, s2, d2⟩ := ihr f1 (shape g1 n1 t)
-    refine ⟨f2, g2 ++ g1, n2 ++ n1, ?_, e2.trans e1, ?_, ?_⟩
+    obtain ⟨fb, db, hb1, eb, jb⟩ := ihb { macros := locals, lets := [], cats := cats (f :: t), obj := o } (f :: t)
+    obtain ⟨f1, d1, h1, e1, _, sub1⟩ := shape_cons db f t
+    obtain ⟨f2, d2, h2, e2, j2⟩ := ihr f1 (shape d1 t)
+    refine ⟨f2, d2.app d1, ?_, e2.trans e1, ?_⟩
     · rw [run_cons, run_append, run_cons]
       simp only [step]
       rw [push_notDoc o locals (f :: t) hnd, hb1, pop_own_frame o o' fb _ eb hcl (by rw [h1]; simp), h1, h2, shape_shape]
-    · intro x hx
-      rcases List.mem_append.mp hx with h | h
-      · obtain ⟨op, hop, hs⟩ := s2 x h
-        exact ⟨op, by simp [hop], hs⟩
-      · obtain ⟨op, hop, hs⟩ := sb x (sub1 x h)
-        exact ⟨op, by simp [hop], hs⟩
-    · intro x hx
-      rcases List.mem_append.mp hx with h | h
-      · obtain ⟨op, hop, hs⟩ := d2 x h
-        exact ⟨op, by simp [hop], hs⟩
-      · obtain ⟨op, hop, hs⟩ := db x (subn x h)
-        exact ⟨op, by simp [hop], hs⟩
+    · exact justified_app (justified_mono j2 (fun op h => by simp [h]))
+        (justified_mono (justified_sub sub1 jb) (fun op h => by simp [h]))
 
-/-! ## what `extG` does and does not change -/
 
-theorem cats_extG (g : List (Nat × Val)) (c : Ctx) : cats (extG g c) = cats c := by
+/-! ## what `shape` does and does not change -/
+
+theorem cats_shape (d : Delta) (c : Ctx) : cats (shape d c) = cats c := by
   cases c with
   | nil => rfl
   | cons f t =>
-    obtain ⟨f1, g1, h1, _, hc, _, _⟩ := extG_cons g f t
+    obtain ⟨f1, d1, h1, _, hc, _⟩ := shape_cons d f t
     rw [h1]; simp [cats, hc]
 
-theorem getLet_extG (n : Nat) (g : List (Nat × Val)) (c : Ctx) : getLet n (extG g c) = getLet n c := by
-  induction c with
-  | nil => rfl
-  | cons f t ih =>
-    cases t with
-    | nil => simp [extG, modifyGlobal, getLet]
-    | cons a b =>
-      rw [extG_cons_ne g f (a :: b) (by simp)]
-      show (match f.lets.lookup n with | some v => some v | none => getLet n (extG g (a :: b))) = (match f.lets.lookup n with | some v => some v | none => getLet n (a :: b))
-      rw [ih]
+theorem lookup_cons {β} (n a : Nat) (b : β) (l : List (Nat × β)) :
+    List.lookup n ((a, b) :: l) = if n == a then some b else List.lookup n l := by
+  simp only [List.lookup]
+  cases (n == a) <;> rfl
 
-/-- a name without a global binding in `g` means the same before and after -/
-theorem find_extG (n : Nat) (g : List (Nat × Val)) (c : Ctx) (hn : ∀ x ∈ g, x.1 ≠ n) :
-    find n (extG g c) = find n c := by
-  have hl : ∀ (l : List (Nat × Val)), (g ++ l).lookup n = l.lookup n := by
-    intro l
-    induction g with
-    | nil => rfl
-    | cons x g ih =>
-      have hx : x.1 ≠ n := hn x (List.mem_cons_self)
-      have : (n == x.1) = false := by simp; exact fun h => hx h.symm
-      rw [List.cons_append]
-      cases x with
-      | mk a b => simp only [List.lookup] at *; simp [this]; exact ih (fun y hy => hn y (List.mem_cons_of_mem _ hy))
+theorem lookup_filter_other {β} (n : Nat) (ns : List Nat) (hn : n ∉ ns) (l : List (Nat × β)) :
+    (l.filter (fun p => !ns.contains p.1)).lookup n = l.lookup n := by
+  induction l with
+  | nil => rfl
+  | cons x l ih =>
+    obtain ⟨a, b⟩ := x
+    rw [List.filter_cons]
+    by_cases hc : (!ns.contains a) = true
+    · rw [if_pos hc, lookup_cons, lookup_cons, ih]
+    · rw [if_neg hc, lookup_cons, ih]
+      have hmem : a ∈ ns := by simpa using hc
+      have hne : (n == a) = false := by
+        rw [beq_eq_false_iff_ne]
+        intro e; subst e; exact hn hmem
+      rw [hne]; rfl
+
+theorem lookup_filter_self {β} (n : Nat) (l : List (Nat × β)) :
+    (l.filter (fun p => ![n].contains p.1)).lookup n = none := by
+  induction l with
+  | nil => rfl
+  | cons x l ih =>
+    obtain ⟨a, b⟩ := x
+    rw [List.filter_cons]
+    by_cases ha : a = n
+    · have hc : ¬ (![n].contains a) = true := by subst ha; simp
+      rw [if_neg hc]; exact ih
+    · have hc : (![n].contains a) = true := by simp [ha]
+      have hne : (n == a) = false := by
+        rw [beq_eq_false_iff_ne]; exact fun e => ha e.symm
+      rw [if_pos hc, lookup_cons, hne, ih]; rfl
+
+
+theorem lookup_append_other {β} (n : Nat) (g l : List (Nat × β)) (hn : ∀ x ∈ g, x.1 ≠ n) : (g ++ l).lookup n = l.lookup n := by
+  induction g with
+  | nil => rfl
+  | cons x g ih =>
+    obtain ⟨a, b⟩ := x
+    have hx : a ≠ n := hn (a, b) List.mem_cons_self
+    have : (n == a) = false := by rw [beq_eq_false_iff_ne]; exact fun h => hx h.symm
+    rw [List.cons_append, lookup_cons, this]
+    exact ih (fun y hy => hn y (List.mem_cons_of_mem _ hy))
+
+/-- a name whose aliases the change does not touch means the same token before and after -/
+theorem getLet_shape (n : Nat) (d : Delta) (c : Ctx) (hgl : ∀ x ∈ d.gl, x.1 ≠ n) (hls : n ∉ d.ls) :
+    getLet n (shape d c) = getLet n c := by
   induction c with
   | nil => rfl
   | cons f t ih =>
     cases t with
-    | nil => simp [extG, modifyGlobal, find, hl]
+    | nil =>
+      show (match (d.gl ++ f.lets).lookup n with | some v => some v | none => none) = (match f.lets.lookup n with | some v => some v | none => none)
+      rw [lookup_append_other n d.gl f.lets hgl]
     | cons a b =>
-      rw [extG_cons_ne g f (a :: b) (by simp)]
-      show (match f.macros.lookup n with | some v => some v | none => find n (extG g (a :: b))) = (match f.macros.lookup n with | some v => some v | none => find n (a :: b))
-      rw [ih]
+      rw [shape, mapFrames_cons_ne _ _ f (a :: b) (by simp)]
+      show (match (f.lets.filter (fun p => !d.ls.contains p.1)).lookup n with | some v => some v | none => getLet n (shape d (a :: b))) = (match f.lets.lookup n with | some v => some v | none => getLet n (a :: b))
+      rw [lookup_filter_other n d.ls hls, ih]
+
+/-- a name without a global binding in `d.g` that was not globally assigned means the same before and after -/
+theorem find_shape (n : Nat) (d : Delta) (c : Ctx) (hg : ∀ x ∈ d.g, x.1 ≠ n) (hn : n ∉ d.ns) :
+    find n (shape d c) = find n c := by
+  induction c with
+  | nil => rfl
+  | cons f t ih =>
+    cases t with
+    | nil =>
+      show (match (d.g ++ f.macros).lookup n with | some v => some v | none => none) = (match f.macros.lookup n with | some v => some v | none => none)
+      rw [lookup_append_other n d.g f.macros hg]
+    | cons a b =>
+      rw [shape, mapFrames_cons_ne _ _ f (a :: b) (by simp)]
+      show (match (f.macros.filter (fun p => !d.ns.contains p.1)).lookup n with | some v => some v | none => find n (shape d (a :: b))) = (match f.macros.lookup n with | some v => some v | none => find n (a :: b))
+      rw [lookup_filter_other n d.ns hn, ih]
+
+theorem find_dropLocalsL (n : Nat) (ns : List Nat) (hn : n ∉ ns) (c : Ctx) : find n (dropLocalsL ns c) = find n c := by
+  rw [dropLocalsL_eq_shape]; exact find_shape n _ c (by simp) hn
+
+theorem find_dropLetsL (n : Nat) (ls : List Nat) (c : Ctx) : find n (dropLetsL ls c) = find n c := by
+  rw [dropLetsL_eq_shape]; exact find_shape n _ c (by simp) (by simp)
 
 /-! ## global definitions persist through any history -/
 
@@ -426,82 +511,27 @@ theorem findGlobal_addGlobal_other (n m : Nat) (v : Val) (c : Ctx) (h : m ≠ n)
 
 
 
-theorem cats_dropLocalsL (ns : List Nat) (c : Ctx) : cats (dropLocalsL ns c) = cats c := by
-  cases c with
-  | nil => rfl
-  | cons f t =>
-    cases t with
-    | nil => rfl
-    | cons a b => rfl
 
-theorem getLet_dropLocalsL (n : Nat) (ns : List Nat) (c : Ctx) : getLet n (dropLocalsL ns c) = getLet n c := by
+theorem findGlobal_dropLetsL (n : Nat) (ls : List Nat) (c : Ctx) : findGlobal n (dropLetsL ls c) = findGlobal n c := by
   induction c with
   | nil => rfl
   | cons f t ih =>
     cases t with
     | nil => rfl
     | cons a b =>
-      rw [dropLocalsL_cons_ne ns f (a :: b) (by simp)]
-      show (match f.lets.lookup n with | some v => some v | none => getLet n (dropLocalsL ns (a :: b))) = (match f.lets.lookup n with | some v => some v | none => getLet n (a :: b))
-      rw [ih]
+      rw [dropLetsL_cons_ne ls f (a :: b) (by simp), findGlobal_cons_ne n _ _ (dropLetsL_ne_nil ls (a :: b) (by simp)), ih]
+      rfl
 
-theorem lookup_cons (n a : Nat) (b : Val) (l : List (Nat × Val)) :
-    List.lookup n ((a, b) :: l) = if n == a then some b else List.lookup n l := by
-  simp only [List.lookup]
-  cases (n == a) <;> rfl
-
-theorem lookup_filter_other (n : Nat) (ns : List Nat) (hn : n ∉ ns) (l : List (Nat × Val)) :
-    (l.filter (fun p => !ns.contains p.1)).lookup n = l.lookup n := by
-  induction l with
-  | nil => rfl
-  | cons x l ih =>
-    obtain ⟨a, b⟩ := x
-    rw [List.filter_cons]
-    by_cases hc : (!ns.contains a) = true
-    · rw [if_pos hc, lookup_cons, lookup_cons, ih]
-    · rw [if_neg hc, lookup_cons, ih]
-      have hmem : a ∈ ns := by simpa using hc
-      have hne : (n == a) = false := by
-        rw [beq_eq_false_iff_ne]
-        intro e; subst e; exact hn hmem
-      rw [hne]; rfl
-
-theorem lookup_filter_self (n : Nat) (l : List (Nat × Val)) :
-    (l.filter (fun p => ![n].contains p.1)).lookup n = none := by
-  induction l with
-  | nil => rfl
-  | cons x l ih =>
-    obtain ⟨a, b⟩ := x
-    rw [List.filter_cons]
-    by_cases ha : a = n
-    · have hc : ¬ (![n].contains a) = true := by subst ha; simp
-      rw [if_neg hc]; exact ih
-    · have hc : (![n].contains a) = true := by simp [ha]
-      have hne : (n == a) = false := by
-        rw [beq_eq_false_iff_ne]; exact fun e => ha e.symm
-      rw [if_pos hc, lookup_cons, hne, ih]; rfl
-
-/-- a name that was not `\gdef`-ed keeps its bindings at every level -/
-theorem find_dropLocalsL (n : Nat) (ns : List Nat) (hn : n ∉ ns) (c : Ctx) : find n (dropLocalsL ns c) = find n c := by
+theorem findGlobal_modifyGlobal_lets (n : Nat) (c : Ctx) (h : Frame → Frame)
+    (hm : ∀ f, (h f).macros = f.macros) : findGlobal n (modifyGlobal h c) = findGlobal n c := by
   induction c with
   | nil => rfl
   | cons f t ih =>
     cases t with
-    | nil => rfl
+    | nil => simp [modifyGlobal, findGlobal, hm]
     | cons a b =>
-      rw [dropLocalsL_cons_ne ns f (a :: b) (by simp)]
-      show (match (f.macros.filter (fun p => !ns.contains p.1)).lookup n with | some v => some v | none => find n (dropLocalsL ns (a :: b))) = (match f.macros.lookup n with | some v => some v | none => find n (a :: b))
-      rw [lookup_filter_other n ns hn, ih]
-
-theorem cats_shape (g : List (Nat × Val)) (ns : List Nat) (c : Ctx) : cats (shape g ns c) = cats c := by
-  rw [shape, cats_extG, cats_dropLocalsL]
-
-theorem getLet_shape (n : Nat) (g : List (Nat × Val)) (ns : List Nat) (c : Ctx) : getLet n (shape g ns c) = getLet n c := by
-  rw [shape, getLet_extG, getLet_dropLocalsL]
-
-theorem find_shape (n : Nat) (g : List (Nat × Val)) (ns : List Nat) (c : Ctx) (hg : ∀ x ∈ g, x.1 ≠ n) (hn : n ∉ ns) :
-    find n (shape g ns c) = find n c := by
-  rw [shape, find_extG n g _ hg, find_dropLocalsL n ns hn]
+      rw [modifyGlobal_cons_ne _ f (a :: b) (by simp), findGlobal_cons_ne n f _ (modifyGlobal_ne_nil _ _ (by simp)), ih]
+      rfl
 
 theorem findGlobal_dropLocalsL (n : Nat) (ns : List Nat) (c : Ctx) : findGlobal n (dropLocalsL ns c) = findGlobal n c := by
   induction c with
@@ -529,6 +559,37 @@ theorem find_defGlobal (n : Nat) (v : Val) (c : Ctx) (h : c ≠ []) : find n (de
       rw [hl]
       exact ih (by simp)
 
+/-- lookups of macros do not see the alias components of a change -/
+theorem find_shape_macros_only (n : Nat) (d : Delta) (c : Ctx) :
+    find n (shape d c) = find n (shape { g := d.g, ns := d.ns } c) := by
+  induction c with
+  | nil => rfl
+  | cons f t ih =>
+    cases t with
+    | nil => rfl
+    | cons a b =>
+      rw [shape, shape, mapFrames_cons_ne _ _ f (a :: b) (by simp), mapFrames_cons_ne _ _ f (a :: b) (by simp)]
+      show (match (f.macros.filter (fun p => !d.ns.contains p.1)).lookup n with | some v => some v | none => find n (shape d (a :: b))) =
+        (match (f.macros.filter (fun p => !d.ns.contains p.1)).lookup n with | some v => some v | none => find n (shape { g := d.g, ns := d.ns } (a :: b)))
+      rw [ih]
+
+/-- after `\\global\\let\\d=\\s` the name `d` means, at every level, what `\\s` meant (an undefined `\\s` having first become a
+    global placeholder, as for any lookup) -/
+theorem find_letGlobalCs (d s : Nat) (c : Ctx) (h : c ≠ []) :
+    find d (letGlobalCs d s c) = some (lookup s c).1 := by
+  have key : ∀ (v : Val) (c' : Ctx), c' ≠ [] → find d (addGlobal d v (dropLetsL [d] (dropLocalsL [d] c'))) = some v := by
+    intro v c' h'
+    have e : addGlobal d v (dropLetsL [d] (dropLocalsL [d] c')) = shape { g := [(d, v)], ns := [d], ls := [d] } c' := by
+      rw [addGlobal_eq_shape, dropLetsL_eq_shape, dropLocalsL_eq_shape, shape_shape, shape_shape]; rfl
+    have e2 : defGlobal d v c' = shape { g := [(d, v)], ns := [d] } c' := by
+      rw [defGlobal, addGlobal_eq_shape, dropLocalsL_eq_shape, shape_shape]; rfl
+    rw [e, find_shape_macros_only, ← e2]
+    exact find_defGlobal d v c' h'
+  simp only [letGlobalCs, lookup]
+  cases hf : find s c with
+  | some v => exact key v c h
+  | none => exact key _ _ (modifyGlobal_ne_nil _ c h)
+
 /-- `op` writes (or may write) a binding for `n` somewhere -/
 def touches (n : Nat) : Op → Bool
   | .addGlobal m _ => m == n
@@ -536,6 +597,7 @@ def touches (n : Nat) : Op → Bool
   | .lookup m => m == n
   | .letCs d s => d == n || s == n
   | .gdef m _ => m == n
+  | .gletCs d s => d == n || s == n
   | _ => false
 
 theorem popNone_ne_nil (c : Ctx) (h : c ≠ []) : popNone c ≠ [] := by
@@ -595,6 +657,11 @@ theorem step_ne_nil (c : Ctx) (op : Op) (h : c ≠ []) : step c op ≠ [] := by
     · exact h
     · exact modifyGlobal_ne_nil _ c h
   | gdef n v => exact modifyGlobal_ne_nil _ _ (dropLocalsL_ne_nil [n] c h)
+  | gletCs d s =>
+    simp only [step, letGlobalCs, lookup]
+    split <;> exact modifyGlobal_ne_nil _ _ (dropLetsL_ne_nil _ _ (dropLocalsL_ne_nil _ _
+      (by first | exact h | exact modifyGlobal_ne_nil _ c h)))
+  | gletTok d t => exact modifyGlobal_ne_nil _ _ (dropLetsL_ne_nil _ _ (dropLocalsL_ne_nil _ c h))
 
 theorem findGlobal_step (n : Nat) (c : Ctx) (op : Op) (h : c ≠ []) (ht : touches n op = false) :
     findGlobal n (step c op) = findGlobal n c := by
@@ -640,6 +707,17 @@ theorem findGlobal_step (n : Nat) (c : Ctx) (op : Op) (h : c ≠ []) (ht : touch
     simp [touches] at ht
     simp only [step, defGlobal]
     rw [findGlobal_addGlobal_other n m v _ ht, findGlobal_dropLocalsL]
+  | gletCs d s =>
+    simp [touches] at ht
+    simp only [step, letGlobalCs, lookup]
+    split
+    · rw [findGlobal_addGlobal_other n d _ _ ht.1, findGlobal_dropLetsL, findGlobal_dropLocalsL]
+    · rw [findGlobal_addGlobal_other n d _ _ ht.1, findGlobal_dropLetsL, findGlobal_dropLocalsL]
+      exact findGlobal_addGlobal_other n s _ c ht.2
+  | gletTok d t =>
+    simp only [step, letGlobalTok]
+    rw [findGlobal_modifyGlobal_lets n _ (fun f => { f with lets := (d, t) :: f.lets }) (fun f => rfl),
+      findGlobal_dropLetsL, findGlobal_dropLocalsL]
 
 theorem findGlobal_run (n : Nat) (ops : List Op) : ∀ (c : Ctx), c ≠ [] → (∀ op ∈ ops, touches n op = false) →
     findGlobal n (run ops c) = findGlobal n c := by
